@@ -57,9 +57,9 @@ Print Assumptions C12_calls_current.
    positional-argument count, the data delivered to the target is exactly the given keywords minus the control keywords
    recognised by the site's table (regenerated from the source); the only other outcomes are HA's own validation error and
    the TypeError for positional arguments the call form does not take. *)
-Theorem C12_outgoing_exact : forall s task_ctx target nargs nparams kws,
+Theorem C12_outgoing_exact : forall s task_ctx target honly nargs nparams kws,
   NoDup (map kw_key kws) ->
-  match outgoing all_off s task_ctx target nargs nparams kws with
+  match outgoing all_off s task_ctx target honly nargs nparams kws with
   | ODelivered d _ => d = expected_data s nargs nparams kws
   | OTypeError => args_misuse s nargs nparams = true
   | OValidation => True
@@ -86,6 +86,8 @@ Theorem C12_refuted_D121 : refuted 121. Proof. exact refuted_D121. Qed.
 Print Assumptions C12_refuted_D121.
 Theorem C12_refuted_D122 : refuted 122. Proof. exact refuted_D122. Qed.
 Print Assumptions C12_refuted_D122.
+Theorem C12_refuted_D124 : refuted 124. Proof. exact refuted_D124. Qed.
+Print Assumptions C12_refuted_D124.
 Theorem C12_refuted_D123 : exists target data h,
   (exists x, In (HGiven x) h /\ kw_key x = 4%N) /\
   ha_call (only 123) target data h = OTypeError /\ ha_call all_off target data h = ODelivered data false.
